@@ -349,7 +349,12 @@ class OpGraph:
 
         # dummy trailing half-chain
         assert len(vlist_next) == 1
-        assert coeffs_next[0] == 1.0
+        if coeffs_next[0] != 1.0:
+            # coefficient not placed on an edge yet (a single operator remained at the last site):
+            # absorb it into the edges entering the final node
+            for eid in graph.nodes[vlist_next[0].nidl].eids[0]:
+                edge = graph.edges[eid]
+                edge.opics = [(oid, coeffs_next[0] * c) for oid, c in edge.opics]
 
         # make left node the new end node of the graph
         graph.nid_terminal[1] = vlist_next[0].nidl
